@@ -236,7 +236,7 @@ def gen_member_value(schema, f, rng):
 # --------------------------------------------------------------------------------------
 # history generation
 # --------------------------------------------------------------------------------------
-KINDS = (["construct"] * 2 + ["set_member"] * 6 + ["set_plain"] * 2 + ["set_nested", "get", "get"] + ["parse_recs"] * 3 + ["parse_rand"]
+KINDS = (["construct"] * 2 + ["set_member"] * 6 + ["set_plain"] * 2 + ["set_nested", "set_nested", "get", "get"] + ["parse_recs"] * 3 + ["parse_rand"]
          + ["fromdict"] * 3 + ["copy", "deepcopy", "pickle", "pickle", "bytes", "len", "dump", "eq", "bool"])
 
 
@@ -265,7 +265,10 @@ def gen_op7(schema, ci, rng, ctx):
         v = msggen.gen_field_value(schema, f, rng, 2)      # in range: what out-of-range ints encode to is C16/C17's subject
         return {"k": "set", "path": [], "i": i, "v": enc_val(schema, v)}
     if k in ("set_nested", "get"):
-        op = histgen.gen_op(schema, ci, rng, kinds=["set" if k == "set_nested" else "get"])
+        for _try in range(6):       # prefer a path below the top level (histgen draws the empty path 60% of the time)
+            op = histgen.gen_op(schema, ci, rng, kinds=["set" if k == "set_nested" else "get"])
+            if op.get("path") or k == "get":
+                break
         if op["k"] == "set":
             op["v"] = enc_val(schema, op["v"])
         return op
@@ -782,9 +785,23 @@ def run(ctx):
         ci = rng.choice(oneof_classes(s))
         n = rng.randint(1, 12)
         ops = []
+        shadow = s.classes[ci].py()      # the state so far, so that nested paths can be chosen among readable attributes
         for _ in range(n):
             try:
-                ops.append(gen_op7(s, ci, rng, ctx))
+                op = gen_op7(s, ci, rng, ctx)
+                for _retry in range(4):
+                    if not (op["k"] in ("set", "get") and op.get("path")):
+                        break
+                    try:
+                        histgen.walk(s, ci, raw_clone(shadow), op["path"])
+                        break
+                    except AttributeError:      # the path runs through an unselected member: draw another one
+                        op = gen_op7(s, ci, rng, ctx)
+                ops.append(op)
+                try:
+                    shadow = apply7(s, ci, raw_clone(shadow), op)[0]
+                except Exception:
+                    break                       # the real run stops here too
             except msggen.Unmodellable:
                 ctx.count("unmodellable_gen")
             except Exception as e:
